@@ -2,9 +2,11 @@
 """confirm_seed.py [ID/x ...]: re-verify seeded changes in a scratch worktree of /repo (outside /repo and /verif):
    demo passes on the unchanged tree; with the patch: suite passes, demo fails.  Results -> /tmp/confirm/results.json"""
 import glob, json, os, re, shutil, subprocess, sys
-WT = "/tmp/confirm/wt"
-TG = "/tmp/confirm/target"
-RES = "/tmp/confirm/results.json"
+SEEDROOT = os.environ.get("SEEDROOT", "/tmp/seed")
+CONF = os.environ.get("CONFIRM_DIR", "/tmp/confirm")
+WT = CONF + "/wt"
+TG = CONF + "/target"
+RES = CONF + "/results.json"
 
 
 def sh(cmd, cwd=None, timeout=1800):
@@ -19,14 +21,14 @@ def reset():
 
 
 def main():
-    os.makedirs("/tmp/confirm", exist_ok=True)
+    os.makedirs(CONF, exist_ok=True)
     if not os.path.exists(WT):
         subprocess.run(["git", "-C", "/repo", "worktree", "add", "--detach", WT, "HEAD"], check=True)
     results = json.load(open(RES)) if os.path.exists(RES) else {}
-    todo = sys.argv[1:] or sorted(os.path.relpath(d, "/tmp/seed").replace("/out/", "/") for d in glob.glob("/tmp/seed/C*/out/[ab]"))
+    todo = sys.argv[1:] or sorted(os.path.relpath(d, SEEDROOT).replace("/out/", "/") for d in glob.glob(SEEDROOT + "/C*/out/[a-e]"))
     for sid in todo:
         pid, x = sid.split("/")
-        d = "/tmp/seed/%s/out/%s" % (pid, x)
+        d = "%s/%s/out/%s" % (SEEDROOT, pid, x)
         if sid in results and results[sid].get("done"):
             continue
         meta = json.load(open(d + "/meta.json"))
